@@ -4,9 +4,13 @@ import json, os, glob
 V = os.path.dirname(os.path.dirname(os.path.abspath(__file__)))
 props = [json.loads(l) for l in open(os.path.join(V, 'properties.jsonl'))]
 claimed = {}
+# only properties listed in checks/READY (one id per line) are claimed: their check has been run green
+# on the unchanged tree and mutation-tested by the main session
+ready = set(l.strip() for l in open(os.path.join(V, 'checks', 'READY')) if l.strip() and not l.startswith('#'))
 for f in sorted(glob.glob(os.path.join(V, 'checks', 'c*.meta.json'))):
     m = json.load(open(f))
-    claimed[m['property_id']] = m
+    if m['property_id'] in ready:
+        claimed[m['property_id']] = m
 try:
     na_reasons = json.load(open(os.path.join(V, 'checks', 'not_applicable.json')))
 except OSError:
